@@ -853,7 +853,7 @@ class Integer(Number):
     _slot_defaults = dict(Number._slot_defaults, default=0)
 
     def _validate_value(self, val, allow_None):
-        if callable(val):
+        if callable(val) and not inspect.isgeneratorfunction(val):
             return
 
         if allow_None and val is None:
